@@ -1589,10 +1589,14 @@ impl Rem<Vec4> for Vec4 {
     type Output = Self;
     #[inline]
     fn rem(self, rhs: Self) -> Self {
-        unsafe {
-            let n = m128_floor(_mm_div_ps(self.0, rhs.0));
-            Self(_mm_sub_ps(self.0, _mm_mul_ps(n, rhs.0)))
-        }
+        // SSE2 has no remainder instruction; use the scalar `%` on each lane so the result
+        // has the sign of the dividend and is exact, like the scalar and core-simd backends.
+        Self::new(
+            self.x.rem(rhs.x),
+            self.y.rem(rhs.y),
+            self.z.rem(rhs.z),
+            self.w.rem(rhs.w),
+        )
     }
 }
 
